@@ -188,3 +188,115 @@ pub fn sweep_end(pass: &'static str, promoted: Option<&CfgNode>, again: bool) {
         again
     ));
 }
+
+// ---------------------------------------------------------------------------
+// Step trace of the statement loop of `RVParser::parse_from_file`.
+
+use crate::parser::{DirectiveType, LexError, ParserNode, Token, TokenType};
+
+fn token_fields(kind: &str, token: &Token) -> String {
+    use crate::passes::DiagnosticLocation;
+    format!(
+        "\"kind\":{},\"file\":{},\"line\":{}",
+        quote(kind),
+        quote(&token.file().to_string()),
+        token.range().start().zero_idx_line()
+    )
+}
+
+fn kind_of(token: &Token) -> &'static str {
+    match token.token_type() {
+        TokenType::Newline => "nl",
+        TokenType::Comment(_) => "comment",
+        _ => "tok",
+    }
+}
+
+/// `ParserNode::try_from` is entered.
+pub fn stmt_begin() {
+    if tracing() {
+        emit("{\"ev\":\"stmt_begin\"}".to_string());
+    }
+}
+
+/// A token (or a lexer error, or the end of the file) was taken from the lexer.
+pub fn pulled(item: Option<&Result<Token, LexError>>) {
+    if !tracing() {
+        return;
+    }
+    let fields = match item {
+        None => "\"kind\":\"eof\",\"file\":\"\",\"line\":-1".to_string(),
+        Some(Ok(token)) => token_fields(kind_of(token), token),
+        Some(Err(
+            LexError::UnexpectedToken(token)
+            | LexError::InvalidString(token, _)
+            | LexError::Expected(_, token)
+            | LexError::UnexpectedError(token),
+        )) => token_fields("err", token),
+        Some(Err(_)) => "\"kind\":\"err\",\"file\":\"\",\"line\":-1".to_string(),
+    };
+    emit(format!("{{\"ev\":\"pull\",{fields}}}"));
+}
+
+/// The result of one statement.
+pub fn stmt_end(node: &Result<ParserNode, LexError>) {
+    if !tracing() {
+        return;
+    }
+    use crate::passes::DiagnosticLocation;
+    let at = |res: &str, token: &Token| {
+        format!(
+            "\"res\":{},\"file\":{},\"line\":{}",
+            quote(res),
+            quote(&token.file().to_string()),
+            token.range().start().zero_idx_line()
+        )
+    };
+    let plain = |res: &str| format!("\"res\":{},\"file\":\"\",\"line\":-1", quote(res));
+    let fields = match node {
+        Ok(ParserNode::Directive(d)) if matches!(d.dir, DirectiveType::Include(_)) => {
+            plain("include")
+        }
+        Ok(_) => plain("ok"),
+        Err(LexError::Expected(_, t)) => at("expected", t),
+        Err(LexError::IsNewline(_)) => plain("newline"),
+        Err(LexError::UnexpectedToken(t)) => at("unexpected_token", t),
+        Err(LexError::UnexpectedEOF) => plain("eof"),
+        Err(LexError::NeedTwoNodes(_, _)) => plain("two"),
+        Err(LexError::UnexpectedError(t)) => at("unexpected_error", t),
+        Err(LexError::UnknownDirective(t)) => at("unknown_directive", t),
+        Err(LexError::IgnoredWithWarning(t) | LexError::UnsupportedDirective(t)) => {
+            at("unsupported", t)
+        }
+        Err(LexError::IgnoredWithoutWarning) => plain("ignored"),
+        Err(LexError::InvalidString(t, _)) => at("invalid_string", t),
+    };
+    emit(format!("{{\"ev\":\"stmt_end\",{fields}}}"));
+}
+
+/// `recover_from_parse_error` starts / ends.
+pub fn recover(begin: bool) {
+    if tracing() {
+        emit(format!(
+            "{{\"ev\":\"{}\"}}",
+            if begin { "recover_begin" } else { "recover_end" }
+        ));
+    }
+}
+
+/// A token was skipped by `recover_from_parse_error`.
+pub fn skipped(token: &Token) {
+    if tracing() {
+        emit(format!(
+            "{{\"ev\":\"skip\",{}}}",
+            token_fields(kind_of(token), token)
+        ));
+    }
+}
+
+/// The lexer stack changes: "push", "import_error", "pop".
+pub fn stack(what: &str) {
+    if tracing() {
+        emit(format!("{{\"ev\":{}}}", quote(what)));
+    }
+}
